@@ -62,8 +62,8 @@ def totals(sums):
 def ledger_check(ctx, pid, cfg, selftest_mutator, what):
     """Common body of C05 / C08 / C09 / C15: scenarios -> TraceLedger validation with only this property's clauses."""
     q = ctx.quick()
-    seeds = [ctx.seed * 1000 + i for i in range(6 if q else 60)]
-    blocks = 120 if q else 300
+    seeds = [ctx.seed * 1000 + i for i in range(6 if q else 160)]
+    blocks = 120 if q else 400
     lines, sums = run_scenarios(ctx, seeds, blocks)
     # the same scenario family on the VRF beacon backend (the production one): nodes submit VRF proofs as transactions
     l2, s2 = run_scenarios(ctx, [x + 300 for x in seeds[:max(2, len(seeds) // 3)]], blocks, extra=VRF)
